@@ -144,6 +144,34 @@ func init() {
 		for k := 0; k < n; k++ {
 			c02dRunCase(r, rng, dis, c02dGenCase(rng))
 		}
+		// accesses that form no transaction (EXEC = 0) between ordinary ones
+		for k := 0; k < n; k++ {
+			cs := &c02dCase{base: 0x1000 + 4*uint64(rng.Intn(64)), exec: c02dFull, seed: rng.U64() % 1000000, fetchMax: 1 + rng.Intn(2),
+				pServeS: 100, pRetS: 100, pServeV: rng.Pick(30, 60, 100), pRetV: rng.Pick(30, 60, 100)}
+			c02dVmEmpty(rng, cs, false)
+			c02dRunCase(r, rng, dis, cs)
+		}
 		c02dRunStores(r, rng, n)
+	})
+}
+
+// Round-4 reviewers' changes that another property's scenarios catch: the address translator's
+// coalescing key (C16) decides whose page a second process reads in timing mode (C01); the
+// emulator's storage accessor (C11's accessor scenarios) decides what a kernel reads from a
+// distributed buffer (C18).
+func init() {
+	register("C01", func(r *Run, rng *Rng, _ string) {
+		r.OracleOnly = true
+		defer func() { r.OracleOnly = false }()
+		for i := 0; i < 150; i++ {
+			ops, closed := c16Gen(rng, false)
+			runC16Scenario(r, ops, closed, "random")
+		}
+	})
+	register("C18", func(r *Run, rng *Rng, _ string) {
+		r.OracleOnly = true
+		defer func() { r.OracleOnly = false }()
+		copyCasesAccessor(r, rng, 200)
+		accessorRuns(r, rng, 40)
 	})
 }
